@@ -31,7 +31,9 @@ TECHNIQUE = "history-level lock-step monitor on the real addon; structural (tupl
 RULE = (
     "case = (initial combination of the 6 matching options, reuse, extra/kill setting, 3-15 recordings derived from one "
     "base request by 0-2 component mutations [method, scheme, host, Host header, port, path incl. ;params and #fragment, "
-    "query pairs (order swap, a=1&b=2 vs a=1%26b=2, blank values, ignored names), body None/empty/raw/urlencoded/multipart "
+    "query pairs (order swap, a=1&b=2 vs a=1%26b=2, blank values, ignored names, names repeated 2-3 times with one non-first "
+    "value changed/swapped/dropped/added -- likewise for form fields and for headers named in use_headers; ignore_* lists name "
+    "other fields, the repeated field, or nothing), body None/empty/raw/urlencoded/multipart "
     "form fields, extra headers], ~15% without response; then 5-40 operations: request (copy of a recording re-encoded or "
     "changed only in currently ignored components, or a near-miss mutation), change of 1-2 matching options, change of "
     "reuse/extra/refresh, replay.server.add, reload); distinct = (option combination, reuse, extra kind, set of observed "
@@ -57,21 +59,35 @@ PORTS = [80, 8080, 443]
 PATHS = ["/a", "/a", "/a/", "/b", "/a;x=1", "/a;x=2", "/a;x=1/c", "/a%41", "/a#f1", "/a#f2"]
 QUERIES = [
     None, [], [("a", "1")], [("a", "1"), ("b", "2")], [("b", "2"), ("a", "1")], [("a", "1&b=2")], [("a", "")],
-    [("a", "1"), ("a", "2")], [("a", "2"), ("a", "1")], [("a ", "+x")], [("a", "1"), ("ts", "@")], [("ts", "@")], [("b", "2"), ("ts", "@")],
+    [("a", "1"), ("a", "2")], [("a", "2"), ("a", "1")], [("a", "1"), ("a", "3")], [("a", "1"), ("a", "2"), ("a", "3")], [("a", "1"), ("a", "3"), ("a", "2")],
+    [("a", "1"), ("ts", "@"), ("a", "2")], [("a", "1"), ("b", "2"), ("a", "2")], [("b", "1"), ("b", "2"), ("a", "1")], [("b", "1"), ("b", "3"), ("a", "1")],
+    [("a ", "+x")], [("a", "1"), ("ts", "@")], [("ts", "@")], [("b", "2"), ("ts", "@")],
 ]
 BODIES = [
     ("none", b"", []), ("empty", b"", []), ("raw", b"x", []), ("raw", b"None", []), ("raw", b"p=1&tok=r1", []),
     ("urlenc", b"", [("p", "1"), ("tok", "@")]), ("urlenc", b"", [("p", "2")]), ("urlenc", b"", [("tok", "@")]),
     ("urlenc", b"", [("k", "v&w"), ("p", "1")]), ("urlenc", b"", [("p", "1"), ("k", "v&w")]), ("urlenc", b"", []),
     ("multipart", b"", [("p", "1"), ("tok", "@")]), ("multipart", b"", [("p", "2")]), ("multipart", b"", [("tok", "@")]),
+] + [
+    (kind, b"", f)
+    for kind in ("urlenc", "multipart")
+    for f in (
+        [("item", "1"), ("item", "2"), ("tok", "@")], [("item", "1"), ("item", "3"), ("tok", "@")], [("item", "2"), ("item", "1"), ("tok", "@")],
+        [("item", "1"), ("item", "2"), ("item", "3")], [("item", "1"), ("item", "3"), ("item", "2")], [("item", "1"), ("tok", "@"), ("item", "2")],
+        [("item", "1"), ("tok", "@")], [("p", "1"), ("p", "2"), ("item", "1")], [("p", "1"), ("p", "3"), ("item", "1")], [("tok", "@"), ("tok", "@"), ("item", "1")],
+    )
 ]
-HEADERS = [[], [], [("x-id", "1")], [("x-id", "2")], [("X-ID", "1")], [("x-id", "1"), ("x-id", "2")], [("x-id", "1, 2")], [("accept", "*/*")], [("accept", "*/*"), ("x-id", "1")]]
+HEADERS = [
+    [], [], [("x-id", "1")], [("x-id", "2")], [("X-ID", "1")], [("x-id", "1"), ("x-id", "2")], [("x-id", "1, 2")], [("accept", "*/*")], [("accept", "*/*"), ("x-id", "1")],
+    [("x-id", "1"), ("x-id", "3")], [("x-id", "2"), ("x-id", "1")], [("x-id", "1"), ("X-Id", "2"), ("x-id", "3")], [("x-id", "1"), ("accept", "*/*"), ("x-id", "2")],
+    [("accept", "a/b"), ("accept", "c/d")], [("accept", "a/b"), ("accept", "e/f")],
+]
 OPT_VALUES = {
     "ignore_content": [False, True],
     "ignore_host": [False, True],
     "ignore_port": [False, True],
-    "ignore_params": [[], ["ts"], ["ts", "b"]],
-    "ignore_payload_params": [[], ["tok"], ["tok", "p"]],
+    "ignore_params": [[], ["ts"], ["ts", "b"], ["ts"], ["a"]],
+    "ignore_payload_params": [[], ["tok"], ["tok", "p"], ["tok"], ["item"]],
     "use_headers": [[], ["x-id"], ["X-Id", "accept"]],
 }
 EXTRAS = ["forward", "forward", "kill", "204", "404", "500"]
@@ -108,6 +124,36 @@ def mutate(r, spec, comp=None):
         s.headers = list(r.choice(HEADERS))
     elif comp == "enc":
         s.enc_style = r.randrange(8)
+    return s
+
+
+def tweak(r, spec):
+    """Near-collision inside a multi-valued component (query pairs, form fields, headers): change, swap, drop or add
+    ONE occurrence of a repeated name, preferably a non-first one."""
+    s = spec.copy()
+    which = [n for n in ("query", "fields", "headers") if getattr(s, n)]
+    if not which:
+        s.query = [("a", "1"), ("a", r.choice(["2", "3"]))]
+        return s
+    attr = r.choice(which)
+    lst = list(getattr(s, attr))
+    names = [k.lower() for k, _ in lst]
+    repeated = [i for i, k in enumerate(names) if names.index(k) != i]  # non-first occurrences
+    op = r.choice(["change", "change", "swap", "drop", "add"])
+    if not repeated or op == "add":
+        k, _v = r.choice(lst)
+        lst.insert(r.randrange(len(lst) + 1), (k, r.choice(["2", "3", "4"])))
+    else:
+        i = r.choice(repeated)
+        k, v = lst[i]
+        if op == "change":
+            lst[i] = (k, r.choice([x for x in ["1", "2", "3", "4"] if x != v]))
+        elif op == "swap":
+            j = names.index(names[i])
+            lst[i], lst[j] = (lst[i][0], lst[j][1]), (lst[j][0], lst[i][1])
+        else:
+            del lst[i]
+    setattr(s, attr, lst)
     return s
 
 
@@ -222,8 +268,10 @@ def one_history(ctx, sp, tctx):
             s = base
             for _ in range(r.choice([0, 0, 1, 1, 2])):
                 s = mutate(r, s)
-            if recs and r.random() < 0.2:
+            if recs and r.random() < 0.3:
                 s = r.choice(recs).spec.copy()
+                if r.random() < 0.5:
+                    s = tweak(r, s)  # recordings that differ in one occurrence of a repeated name
             has = r.random() < 0.85
             tag = f"T{ctx.case_index}-{counter[0]}"
             counter[0] += 1
@@ -315,8 +363,11 @@ def one_history(ctx, sp, tctx):
                     q.fields = [(k, r.choice(["r1", "r2", "r3"]) if k in opts["ignore_payload_params"] else v) for k, v in q.fields]
             else:
                 q = r.choice(recs).spec if recs else base
-                for _ in range(r.choice([1, 1, 2])):
-                    q = mutate(r, q)
+                if r.random() < 0.4:
+                    q = tweak(r, q)
+                else:
+                    for _ in range(r.choice([1, 1, 2])):
+                        q = mutate(r, q)
             f = make_flow(q)
             reuse = any(reuse_pair)
             active = sp.count() > 0
